@@ -8,7 +8,7 @@ import eqlgen as G
 from core import Case, CheckBroken
 
 PID = "C01"
-LEAN_MODULES = ["KrroodVerif.Props.C01", "KrroodVerif.Props.C01Union"]
+LEAN_MODULES = ["KrroodVerif.Props.C01", "KrroodVerif.Props.C01Union", "KrroodVerif.Props.C01Typed"]
 THEOREMS = [
     "KrroodVerif.Eql.C01_cover",
     "KrroodVerif.Eql.C01_sound_complete_partial",
@@ -18,6 +18,11 @@ THEOREMS = [
     "KrroodVerif.Eql.union_true_sound",
     "KrroodVerif.Eql.union_true_complete",
     "KrroodVerif.Eql.union_cell_complete",
+    "KrroodVerif.Eql.eval_no_error",
+    "KrroodVerif.Eql.spec_no_error",
+    "KrroodVerif.Eql.C01_sound_complete_typed",
+    "KrroodVerif.Eql.C01_cover_typed",
+    "KrroodVerif.Eql.union_cells_typed",
     "KrroodVerif.Eql.C01_cex_negUnion",
     "KrroodVerif.Eql.C01_cex_selectIndependent",
     "KrroodVerif.Eql.C01_cex_falsyBound",
